@@ -52,3 +52,15 @@ def gnat(n):
 def gZ(n):
     n = int(n)
     return f'({n})%Z' if n < 0 else f'{n}%Z'
+
+
+def gtoken(tok):
+    return '[' + ';'.join(f'({lit(k)},{lit(v)})' for k, v in tok.items()) + ']'
+
+
+def gtree(t):
+    if t.is_leaf:
+        return f'(Leaf {gcat(t.cat)} {gtoken(t.token)} {lit(t.op_string)} {lit(t.op_symbol)})'
+    if t.is_unary:
+        return f'(Un {gcat(t.cat)} {lit(t.op_string)} {lit(t.op_symbol)} {gtree(t.child)})'
+    return f'(Bin {gcat(t.cat)} {lit(t.op_string)} {lit(t.op_symbol)} {gbool(t.head_is_left)} {gtree(t.left_child)} {gtree(t.right_child)})'
